@@ -15,6 +15,12 @@ func main() {
 		os.Exit(runCore(os.Args[2:]))
 	case "drive-core": // drive-core <prop> <seed> <ntraces> <out.ndjson>
 		os.Exit(runDriveCore(os.Args[2:]))
+	case "drive-cli": // drive-cli <prop> <seed> <first> <count> <out.ndjson>
+		os.Exit(runDriveCLI(os.Args[2:]))
+	case "cli-worker":
+		os.Exit(runCLIWorker(os.Args[2:]))
+	case "cli": // cli <prop> <export-file> <result-json>
+		os.Exit(runCLI(os.Args[2:]))
 	default:
 		fmt.Fprintln(os.Stderr, "unknown subcommand", os.Args[1])
 		os.Exit(2)
